@@ -27,6 +27,8 @@ structure Cfg where
   /-- `irc.state.nickToHostmask`: nicks the bot has seen, with their hostmask (keys compared with
   `toLower`) -/
   nicks : List (Str × Str) := []
+  /-- loaded plugins: `cb.name()` with the names for which `cb.isCommandMethod` holds -/
+  plugins : List (Str × List Str) := []
 
 def Cfg.nickToHostmask (cfg : Cfg) (n : Str) : Option Str :=
   (cfg.nicks.find? (fun p => C03.toLower p.1 = C03.toLower n)).map (·.2)
@@ -210,6 +212,13 @@ inductive Cmd
   | flushReload
   /-- SIGHUP / `config reload`: users, ignores and channels are re-read from the files as they are -/
   | reload
+  /-- `world.flush()`: every registered flusher runs (the `flush` command of owners, shutdown) -/
+  | flushAll
+  /-- `world.upkeep()`, the periodic event: flushes iff `supybot.flush` is on -/
+  | upkeep (flushOn : Bool)
+  /-- `channel disable #chan <plugin> <command>` / `channel enable …` -/
+  | chanDisable (chan plugin command : Str)
+  | chanEnable (chan plugin command : Str)
 deriving Repr
 
 /-- plugin path used by the gate -/
@@ -237,6 +246,10 @@ def Cmd.path : Cmd → List Str
   | .configCaps .. => [s "config", s "config"]
   | .flushReload => []
   | .reload => []
+  | .flushAll => []
+  | .upkeep _ => []
+  | .chanDisable .. => [s "channel", s "disable"]
+  | .chanEnable .. => [s "channel", s "enable"]
 
 /-- `len(unWildcardHostmask(h)) < 3` -/
 def tooWild (h : Str) : Bool := (h.filter (fun c => c != '!' && c != '@' && c != '*' && c != '?')).length < 3
@@ -317,6 +330,28 @@ def reloadC (cfg : Cfg) (st : St) : St :=
   | none => { st with channels := [] }
 
 def reloadSt (cfg : Cfg) (st : St) : St := reloadC cfg (reloadI (reloadU cfg st))
+
+/-- `world.flush()`: users, channels and ignores are written -/
+def flushAllSt (cfg : Cfg) (st : St) : St :=
+  { flushC (flushU st) with ifile := some (C16.dumpIgnores (envOf cfg) st.ignores) }
+
+/-- `callbacks.canonicalName`: lower-case, TAB/dash/underscore/blank removed except at the end -/
+def canonicalName (c : Str) : Str :=
+  let special := fun (x : Char) => x = '\t' || x = '-' || x = '_' || x = ' '
+  let tail := (c.reverse.takeWhile special).reverse
+  let head := (c.reverse.dropWhile special).reverse
+  asciiLower (head.filter (fun x => !special x)) ++ tail
+
+/-- the capability `channel disable/enable` work on: `-Plugin.command`, when the plugin is loaded
+(`irc.getCallback`, case-insensitive) and has that command; `none` = the command does nothing -/
+def disableCap (cfg : Cfg) (plugin command : Str) : Option Str :=
+  match cfg.plugins.find? (fun p => asciiLower p.1 = asciiLower plugin) with
+  | none => none
+  | some p =>
+    if command.isEmpty then some ('-' :: p.1)             -- an empty command name: the whole plugin
+    else if command.contains ' ' then none
+    else if p.2.contains (canonicalName command) then some ('-' :: p.1 ++ '.' :: canonicalName command)
+    else none
 
 /-- `name` resolved by the `otherUser` converter, and that account's record -/
 def withOther (cfg : Cfg) (st : St) (name : Str) (f : Nat → C16.User → St × Bool) : St × Bool :=
@@ -556,6 +591,26 @@ def body (cfg : Cfg) (st : St) (pfx : Str) : Cmd → St × Bool
     | .error _ => (st, false)
   | .flushReload => (flushReloadSt cfg st, true)
   | .reload => (reloadSt cfg st, true)
+  | .flushAll => (flushAllSt cfg st, true)
+  | .upkeep on => (if on then flushAllSt cfg st else st, true)
+  | .chanDisable chan plugin command =>
+    if !st.opGuard pfx chan then (st, false)
+    else match disableCap cfg plugin command with
+      | none => (st, false)
+      | some cap =>
+        let c := st.chan chan
+        (match C03.CapSet.add c.caps cap with
+         | .ok caps' => (flushC (st.putChan chan { c with caps := caps' }), true)
+         | .error _ => (st.putChan chan c, false))
+  | .chanEnable chan plugin command =>
+    if !st.opGuard pfx chan then (st, false)
+    else match disableCap cfg plugin command with
+      | none => (st, false)
+      | some cap =>
+        let c := st.chan chan
+        (match C03.CapSet.remove c.caps cap with
+         | .ok caps' => (flushC (st.putChan chan { c with caps := caps' }), true)
+         | .error _ => (flushC (st.putChan chan c), false))
 
 /-- what lets a caller run the command at all: the gate; the `private` converter is satisfied by
 construction; Owner/Config commands additionally need the `owner` capability -/
@@ -563,6 +618,8 @@ def allowed (st : St) (pfx : Str) (c : Cmd) : Bool :=
   match c with
   | .flushReload => true
   | .reload => true
+  | .flushAll => true
+  | .upkeep _ => true
   | .configCaps _ => st.gate pfx c.path && st.check pfx C03.ownerS = some true
   | _ => st.gate pfx c.path
 
@@ -571,6 +628,8 @@ def step (cfg : Cfg) (st : St) (pfx : Str) (c : Cmd) : St × Bool :=
   match c with
   | .flushReload => body cfg st pfx c          -- not an IRC command: the harness calls flush()/reload()
   | .reload => body cfg st pfx c
+  | .flushAll => body cfg st pfx c
+  | .upkeep _ => body cfg st pfx c
   | _ =>
     if st.ignored pfx then (st, false)          -- Owner.doPrivmsg drops the message
     else if allowed st pfx c then body cfg st pfx c else (st, false)
